@@ -402,6 +402,13 @@ def run(repo, rep):
     rep.clause("C03-i", "after a Reshape has been bypassed no later rewrite re-derives an operator's OFM shape from the re-shaped tensor (the operator would read IFM positions that its producer never wrote) [rule shared with C02-m]")
     c02.rule_shape_view(repo, rep, "C03-i")
     rule_copy_elision(repo, rep)
+    rep.clause("C03-l", "one activation slot per NPU operation: the activation of a packed activation operator replaces the primary operator's only if that slot is free (guard at the overwrite or in can_pack)")
+    rule_activation_slot(repo, rep)
+    rep.clause("C03-k", "pass packing automaton (test_sequence explored from the empty state): one main operation per NPU pass; a DMA copy (Memcpy) is packed alone - no activation is fused behind a copy that cannot apply it")
+    from .shared import pass_packing_automaton
+
+    if pass_packing_automaton(repo, rep, "C03-k") < 3:
+        raise AnalysisError("pass_packing.test_sequence: fewer than 3 rows set the main operation of an NPU pass")
     rep.clause("C03-h", "convert_pad: the copy of the IFM and the up to four border fills tile the padded OFM exactly, for every combination of pad widths (finite evaluation of the five (shape, write offset) pairs)")
     _rule_convert_pad(repo, rep)
     from . import c04, c08
@@ -481,6 +488,66 @@ def _rule_convert_pad(repo, rep):
             extra = sorted(k_ for k_, v in cover.items() if v != 1 or k_ not in want)[:3]
             bad = f"pads (top {top}, left {left}, bottom {bottom}, right {right}) on a {h}x{w} IFM: rows/cols never written {missing}, written twice or outside {extra}"
     rep.check(bad is None, "C03-h", site, f"the IFM copy and the border fills tile the OFM exactly ({n} pad / shape combinations)", (bad or "") + ": the consumer of the padded tensor reads bytes no operation defined")
+
+
+
+def rule_activation_slot(repo, rep):
+    """(l) An NPU operation has one activation slot. The command generator gives the pass's primary operator the activation of every
+    activation operator packed into the pass (`ps.primary_op.activation = create_activation_function(op.type ..)`), an overwrite.
+    That is only right if the slot was free: a TANH already lowered to a table lookup, or a convolution with a fused RELU6, followed
+    by a RELU would lose its own activation - the table is then neither applied nor kept (its SHRAM banks are handed to the IFM
+    buffers while the LUT tracker still believes it resident: the next user of the same table reads clobbered banks). Either the
+    overwrite is guarded by `activation is None`, or pass packing refuses to pack an activation operator behind a producer whose
+    `activation` is set."""
+    gen = repo.mod("high_level_command_stream_generator")
+    pp = repo.mod("pass_packing")
+    site = "ethosu/vela/pass_packing.py:pack_into_passes.can_pack"
+    over = []
+    for q, fn in gen.functions.items():
+        for x in ast.walk(fn):
+            if isinstance(x, ast.Assign) and any(str(norm(t)).endswith("primary_op.activation") for t in x.targets):
+                over.append((q, fn, x))
+    if not over:
+        rep.ok("C03-l", "ethosu/vela/high_level_command_stream_generator.py", "no overwrite of the primary operator's activation", "nothing to guard")
+        return
+    for q, fn, x in over:
+        parents = {}
+        for n in ast.walk(fn):
+            for ch in ast.iter_child_nodes(n):
+                parents[ch] = n
+        p_ = x
+        guarded = False
+        while p_ in parents:
+            p_ = parents[p_]
+            if isinstance(p_, ast.If) and "primary_op.activation is None" in str(norm(p_.test)) and x in list(ast.walk(p_))and not any(x in list(ast.walk(o)) for o in p_.orelse):
+                guarded = True
+        if guarded:
+            rep.ok("C03-l", f"ethosu/vela/high_level_command_stream_generator.py:{q}", f"`{str(norm(x))[:70]}`", "only fills a free activation slot")
+            continue
+        # the packing side
+        cp = None
+        for q2, f2 in pp.functions.items():
+            for n in ast.walk(f2):
+                if isinstance(n, ast.FunctionDef) and n.name == "can_pack":
+                    cp = n
+        if cp is None:
+            raise AnalysisError("pass_packing: can_pack not found")
+        prod = {str(norm(a.targets[0])) for a in ast.walk(cp) if isinstance(a, ast.Assign) and len(a.targets) == 1 and str(norm(a.value)) == "inp.ops[0]"}
+        if not prod:
+            raise AnalysisError("pass_packing.can_pack: the producer (`inp.ops[0]`) is not named")
+        found = None
+        for n in ast.walk(cp):
+            if isinstance(n, ast.If) and n.body and isinstance(n.body[0], ast.Return) and str(norm(n.body[0].value)) == "False":
+                cj = [str(norm(c)) for c in conjuncts(n.test)]
+                has_act = any(any(c in (f"{p}.activation is not None", f"{p}.activation") for p in prod) for c in cj)
+                others = [c for c in cj if not any(c in (f"{p}.activation is not None", f"{p}.activation") for p in prod)]
+                ok_others = all(("curr_op.type" in c and ("activation_ops" in c or "npu_post_ops" in c or "is_relu_op" in c)) for c in others)
+                if has_act and ok_others:
+                    found = n
+        rep.check(found is not None, "C03-l", site, "an activation operator is not packed behind a producer whose activation slot is taken (the generator overwrites the slot)",
+                  f"`{str(norm(x))[:80]}` in {q} overwrites the activation of the primary operator and can_pack has no `<producer>.activation is not None -> False` test: "
+                  "TANH (table lookup) -> RELU loses the table (the next TANH with the same table reads clobbered SHRAM banks on ethos-u55-32); CONV_2D with fused RELU6 -> RELU is emitted with the clamp [0, inf)")
+    rep.floor("C03-l", 1)
 
 
 def rule_copy_elision(repo, rep):
